@@ -103,8 +103,7 @@ def part(prop, out, with_render=False):
         elif c['kernel'].startswith('nesting:'):
             ok, desc, rp = confirm_nesting(C, c['model'])
         elif c['kernel'] == 'enum_definition':
-            import native
-            ok, desc, rp = confirm_enum_literals(native.ReplayTool(sc), c['model'])
+            ok, desc, rp = confirm_enum_literals(C, c['model'])
         else:
             ok, desc, rp = confirm_required(C, c['model'])
         replayed += 1
@@ -121,24 +120,31 @@ def part(prop, out, with_render=False):
     return ev
 
 
-def confirm_enum_literals(rt, model):
-    """replay of kernels.k_enum_definition: the wire literals in the real generator's output for an enum with the model's
-    value names (or, when those are not GraphQL names, names every naming convention changes)"""
+def confirm_enum_literals(C, model):
+    """replay of kernels.k_enum_definition in a consumer crate: every schema value must deserialize to its own variant
+    (not `Other`) and serialize back to itself, under the model's normalization.  Uses the model's value names, or - when
+    those are not GraphQL names - names every naming convention changes."""
     import re
     name_ok = re.compile(r'^[_A-Za-z][_0-9A-Za-z]*$')
     vals = model['values']
     if not (all(name_ok.match(v) for v in vals) and len(set(vals)) == len(vals)):
         vals = ['NORTH', 'south_east', 'type'][:len(vals)]
     sdl = f"enum E {{ {' '.join(vals)} }}\ntype Query {{ e: E }}\n"
-    opts = {'normalization': 'rust'} if model.get('normalization') == 'Rust' else {}
-    r = rt.gen(sdl, 'query Q { e }\n', opts)
-    lits = re.findall(r'"([^"]*)"', r['text']) if r['status'] == 'ok' else []
-    missing = [v for v in vals if lits.count(v) < 2]
-    rp = dict(kind='enum-literals', sdl=sdl, options=opts, values=vals, model=model)
-    if r['status'] != 'ok' or missing:
-        return False, (f"enum E {{ {' '.join(vals)} }} under normalization {model.get('normalization')}: the generated Serialize / Deserialize impls do not use the "
-                       f"schema's value names {missing} as wire strings"), rp
-    return True, 'wire literals are the schema value names', rp
+    rust = model.get('normalization') == 'Rust'
+    rp = dict(kind='enum-literals', sdl=sdl, values=vals, model=model)
+    err = C.build(sdl, 'query Q { e }\n', 'Q', 'q', attrs='normalization = "rust", ' if rust else '')
+    if err:
+        return None, 'consumer crate does not compile: ' + err[-300:].replace('\n', ' | '), rp
+    payloads = [{'e': v} for v in vals]
+    for p_, (st, val), (st2, dbg) in zip(payloads, C.run('response', payloads), C.run('debug', payloads)):
+        where = f"enum E {{ {' '.join(vals)} }} under normalization {model.get('normalization')}"
+        if st != 'ok' or st2 != 'ok':
+            return False, f'{where}: the schema value {p_["e"]!r} is rejected: {val}', rp
+        if val.get('e') != p_['e']:
+            return False, f'{where}: the schema value {p_["e"]!r} re-serializes as {json.dumps(val)}', rp
+        if 'Other(' in dbg:
+            return False, f'{where}: the schema value {p_["e"]!r} deserializes to the catch-all variant ({dbg}) instead of its own', rp
+    return True, 'schema values map to their own variants and back', rp
 
 
 def confirm_nesting(C, model):
